@@ -48,6 +48,7 @@ class TruthfulStatus(FlowBase):
             sig.setdefault("status", status)
             sig.setdefault("pause_req", sim.h["pause_req"])
             sig.setdefault("cancel_req", sim.h["cancel_req"])
+            sig.setdefault("after_partial_join_rerun", sim.h["rejoin"])
             return [{"kind": kind, "sig": sig,
                      "detail": {"inflight": list(infl), "fatal": g["fatal"], "status": status}}]
 
@@ -57,7 +58,7 @@ class TruthfulStatus(FlowBase):
             open_recs = [r["id"] for r in post["state"]["sequence"] if r.get("status") not in COMPLETED]
             if open_recs:
                 return v("succeeded_with_incomplete_task")
-            if move[0] == "dispatch" and res.offers:
+            if move[0] == "dispatch" and res.offers and pre["status"] == st.SUCCEEDED:
                 return v("succeeded_with_task_on_offer")
             if not g["off"] and g["fatal"]:
                 kinds = sorted({("fail_command" if f.startswith("fail command") else "unhandled_failure")
@@ -125,6 +126,7 @@ class TerminalFinal(Monitor):
         def v(kind, **sig):
             sig.setdefault("terminal", T)
             sig.setdefault("op", op)
+            sig.setdefault("after_partial_join_rerun", sim.h["rejoin"])
             return [{"kind": kind, "sig": sig, "detail": {"status_now": status, "exc": res.exc}}]
 
         if res.exc is not None and op in ("complete", "release", "hold", "dispatch", "render", "crash"):
@@ -204,6 +206,7 @@ class CancelStops(Monitor):
 
         def v(kind, **sig):
             sig.setdefault("status", status)
+            sig.setdefault("after_partial_join_rerun", sim.h["rejoin"])
             return [{"kind": kind, "sig": sig,
                      "detail": {"inflight": list(infl), "errors": post["errors"], "move": move[:4]}}]
 
